@@ -193,6 +193,7 @@ pub struct SimRng<'a> {
     sweep_stride_a: u32,
     sweep_two: bool,
     sweep_phase: bool,
+    sweep_draws_in_sample: u32,
     pub long_bursts: u64,
     pub served: Vec<(Method, u64)>,
     /// draws since the current sample started / since the last burst ended
@@ -239,6 +240,7 @@ impl<'a> SimRng<'a> {
             sweep_stride_a: 32,
             sweep_two: true,
             sweep_phase: false,
+            sweep_draws_in_sample: 0,
             long_bursts: 0,
             served: Vec::new(),
             draws_since_calm: 0,
@@ -278,6 +280,7 @@ impl<'a> SimRng<'a> {
     pub fn begin_sample(&mut self) {
         self.draws_since_calm = 0;
         self.sample_draws = 0;
+        self.sweep_draws_in_sample = 0;
         if let Some(t) = self.trace.as_mut() {
             let _ = writeln!(t, "\nsample");
             let _ = t.flush();
@@ -297,7 +300,18 @@ impl<'a> SimRng<'a> {
         self.sample_draws += 1;
         // bounded liveness: outside bursts at least a quarter of the words are uniform, so a
         // sampler that has not returned after PROGRESS_CAP calm draws is not making progress
-        if self.burst_left == 0 {
+        // Counter-sweep words are structured, not uniform: for ranges other than the crate's present
+        // ones rand may legitimately reject a long stretch of them, so they are not counted against
+        // the cap either; instead, a sample that has consumed 2048 of them gets uniform words from
+        // then on (and those are counted), which keeps both the sampler and the argument alive.
+        let sweeping = self.mode == RngMode::Sweep;
+        if sweeping {
+            self.sweep_draws_in_sample += 1;
+            if self.sweep_draws_in_sample > 2048 {
+                self.mode = RngMode::Uniform;
+            }
+        }
+        if self.burst_left == 0 && self.mode != RngMode::Sweep {
             self.draws_since_calm += 1;
             if self.draws_since_calm > PROGRESS_CAP * self.cap_factor {
                 std::panic::resume_unwind(Box::new(NoProgressMarker));
